@@ -182,6 +182,9 @@ def leaf_check(world, origin, hist, label, bundle, monitors, stats, doc_log=None
         v.update(details)
         stats.violations[key] = v
       v['count'] += 1
+  for k, v in ctx.extra.items():
+    if isinstance(v, (int, float)) and not isinstance(v, bool):
+      stats.extra[k] = stats.extra.get(k, 0) + v
   return ok
 
 
